@@ -132,6 +132,29 @@ def eval_ik(P, case, out):
     if i == 0:
         r = max(np.abs(P.B_neutral - P.B).max(), np.abs(P.Tt_neutral - Tt).max())
         out.append(("base_placement", float(r), TOL_IK, None))
+    # what IK returned is a value: a later IK on the same platform must not rewrite it
+    s6 = P.fresh()
+    with splib.quiet():
+        La, _ = s6.IK(tm(Tt.copy()), tm(P.B.copy()), protect=True)
+        snap = np.array(La, float).copy()
+        s6.IK(tm((P.B @ splib.rel_pose(P.h, 0)).copy()), tm(P.B.copy()), protect=True)
+    out.append(("earlier_result_overwritten", float(np.abs(np.array(La, float) - snap).max()), 0.0, None))
+    if ok and P.spin != "s0" and i in RESPIN_AT:
+        # forward kinematics used BEFORE the re-spin (anything the solver builds on first use is built for the old tables),
+        # then re-spun, then asked for this pose: must answer as the platform that was re-spun before its first FK
+        P0 = platform(P.geo.gid, P.base, "s0", P.seed)
+        s7 = P0.fresh()
+        Tt0 = P.B @ splib.rel_pose(P.h, 0)
+        with splib.quiet():
+            s7.FK(pg.leg_lengths(P.B, Tt0, P.bl0, P.tl0).copy(), fk_mode=1)
+            _spin(s7, P.spin)
+            splib.place(s7, Tt0, P.B)
+            topa, _va = s7.FK(want.copy(), fk_mode=1)
+            sref = P.fresh()
+            topb, _vb = sref.FK(want.copy(), fk_mode=1)
+        ang, dist = se3.pose_err(splib.T_of(topa), splib.T_of(topb))
+        dl = float(np.abs(np.array(s7.getLens(), float).reshape(6) - np.array(sref.getLens(), float).reshape(6)).max())
+        out.append(("fk_used_before_respin", float(max(dist, ang * P.h, dl)) / P.h, 1e-4, None))
     if P.spin != "s0":
         other = "s-60d" if P.spin == "s0.4" else "s0.4"          # the second, consecutive re-spin uses the other argument form
         a12 = splib.spin_angle(P.spin) + splib.spin_angle(other)
